@@ -53,7 +53,8 @@ def admLoop (s : St) (clock : Nat) (peers : List Nat) (hist : List (Nat × Nat))
       | none => "bad-op"
     | ["f", lbl, ok] =>
       -- find the running transfer with this label
-      match s.running.find? (fun r => runLabel hist r.peer r.gen == lbl), bool01 ok with
+      -- "2": a failure whose error wraps context.Canceled - for the bookkeeping a failure like any other
+      match s.running.find? (fun r => runLabel hist r.peer r.gen == lbl), bool01 (if ok == "2" then "0" else ok) with
       | some r, some ok => fin (step s (.finished r.gen ok clock)) clock peers
       | none, some _ => admLoop s clock peers hist es ("nop" :: acc)
       | _, none => "bad-op"
